@@ -257,6 +257,12 @@ pub fn catalogue() -> Vec<(&'static str, Prog)> {
         "depend_on",
         Prog::new(vec![var(0), var(1), n(Recipe::DependOn(0, 1)), map(F1::Inc, 2)]),
     ));
+    // a map_ref directly over a map_with_old node (which hands no old value to the projection's cutoff), with ordinary
+    // consumers on top (added after seeds C01-d / C06-d)
+    v.push((
+        "mwo_mapref",
+        Prog::new(vec![var(0), var(1), n(Recipe::MapWithOld(0)), n(Recipe::MapRef(2)), map(F1::Inc, 3), n(Recipe::MapN(vec![3, 1, 1]))]),
+    ));
     v.push((
         "bind_own_input",
         Prog::new(vec![var(0), bind(0, E(0), F(0))]),
@@ -1035,11 +1041,13 @@ pub fn diamond_shapes() -> Vec<Prog> {
     let mut out = vec![];
     // `tall`: number of links of the tall right-hand side; it must end up higher than the join node z already is
     // (bind main + 4), otherwise nothing above the bind is lifted at all
-    for (equal_value, tall) in [(false, 2u8), (true, 2), (false, 7), (true, 7)] {
+    // `k_is_var`: the second input of the long arm's links is a variable, so that a two-input node above the bind can
+    // already be queued (its other input changed) when the bind grows taller in the same stabilise (after seed C02-d)
+    for (equal_value, tall, k_is_var) in [(false, 2u8, false), (true, 2, false), (false, 7, false), (true, 7, false), (false, 7, true), (false, 3, true)] {
         let alts: Vec<(u8, u8)> = if tall == 2 { vec![(0, 2), (2, 0), (1, 2)] } else { vec![(0, tall), (tall, 0)] };
         for (e, o) in alts {
             // 0:sel 1:v 2:k 3..3+tall-1: chain over v
-            let mut nodes = vec![var(0), var(1), k(1)];
+            let mut nodes = vec![var(0), var(1), if k_is_var { var(1) } else { k(1) }];
             for i in 0..tall {
                 let prev = if i == 0 { 1 } else { 2 + i };
                 nodes.push(if equal_value { map2(F2::Max, prev, 1) } else { map(F1::Inc, prev) });
